@@ -351,6 +351,29 @@ class Model:
         return True, path
 
 
+    def op_addport(self, op, path):
+        """child.addOut/addIn(name, wire) (or reconnectIn) on a block that already exists -- typically after one of its ports was
+        detached by disconnectWireFromLogicObject; the port name may be the one of the detached port or a new one.  An out port of
+        a primitive on an ordinary wire that already has a driver must be refused (and change nothing), whatever the history of
+        the block; on a free wire it becomes the driver; in ports never conflict"""
+        w = self.wires[op['wid']]
+        c = self.children[op['cid']]
+        if w['kind'] != 'wire' or w['driver'] == HALF:
+            return None, None
+        if op['dir'] == 'in':
+            c['ins'].append(op['wid'])
+            self.used.add(op['wid'])
+            return False, path
+        if not c['prim']:
+            return None, None
+        if w['driver'] is not None:
+            return True, path
+        w['driver'] = (op['cid'], 'readd')
+        c['outs'].append(op['wid'])
+        self.used.add(op['wid'])
+        return False, path
+
+
 class Abort(BaseException):
     pass
 
@@ -496,6 +519,27 @@ class Exec:
             obj = obj.children['d']         # the catalogue block inside its container
         self.py4hw.disconnectWireFromLogicObject(self.wires[op['wid']], obj)
 
+    def op_addport(self, op, path):
+        obj = self.children[op['cid']]
+        wire = self.wires[op['wid']]
+        ports = obj.inPorts if op['dir'] == 'in' else obj.outPorts
+        name = op['name']
+        if op['same']:
+            detached = [p for p in ports if p.wire is None]
+            if detached:
+                name = detached[op.get('which', 0) % len(detached)].name
+                self.same_resolved = getattr(self, 'same_resolved', 0) + 1
+        if op['dir'] == 'in':
+            if op.get('via') == 'reconnectIn' and op['same'] and detached:
+                obj.reconnectIn(name, wire)
+            else:
+                obj.addIn(name, wire)
+            return
+        obj.addOut(name, wire)
+        att = [p for p in obj.outPorts if p.wire is wire]
+        if obj.isPrimitive() and att:
+            self.drv[op['wid']] = att[-1]
+
     def op_rename(self, op, path):
         self.wires[op['wid']].rename(op['new'])
 
@@ -589,6 +633,33 @@ def verify(model, ex):
             continue
         if ex.wires[wid].getSource() is not ex.drv[wid]:
             bad.append(('driver', 'getSource() of %s is no longer the first driver port' % w['name']))
+    # global invariant, read from the object graph: over all live primitive blocks, an ordinary wire has at most one out port
+    # attached, and that port is wire.source
+    att = {}
+    for cid, c in model.children.items():
+        if not c['prim'] or cid not in ex.children:
+            continue
+        obj = ex.children[cid]
+        if not obj.isPrimitive():
+            obj = obj.children.get('d')         # catalogue primitive inside its container
+            if obj is None or not obj.isPrimitive():
+                continue
+        for p in obj.outPorts:
+            if p.wire is not None:
+                att.setdefault(id(p.wire), []).append(p)
+    rev = dict((id(x), wid) for wid, x in ex.wires.items())
+    for rid, ps in att.items():
+        wid = rev.get(rid)
+        w = model.wires.get(wid)
+        if w is None or w['kind'] != 'wire' or w['driver'] == HALF:
+            continue
+        real = ex.wires[wid]
+        ex.inv_checked = getattr(ex, 'inv_checked', 0) + 1
+        if len(ps) > 1:
+            bad.append(('two_drivers', 'wire %s has %d out ports of primitives attached: %s' % (w['name'], len(ps), ', '.join(p.getFullPath() for p in ps[:3]))))
+        elif len(ps) == 1 and real.getSource() is not ps[0]:
+            bad.append(('source_mismatch', 'the only out port attached to wire %s is %s but getSource() is %s' % (
+                w['name'], ps[0].getFullPath(), real.getSource().getFullPath() if real.getSource() is not None else None)))
     return bad
 
 
@@ -611,6 +682,10 @@ def run_plan(plan):
             except Exception as e:      # noqa
                 raised = e
             res['judged'] += 1
+            if op['op'] == 'addport':
+                rk = '%s_%s_name_%s' % (op['dir'], 'same' if op['same'] else 'new', 'must_raise' if exp else 'must_accept')
+                res.setdefault('readd', {})
+                res['readd'][rk] = res['readd'].get(rk, 0) + 1
             if exp and raised is None:
                 res.update(outcome='fault_accepted', step=k, detail='%s did not raise' % op['op'])
                 break
@@ -628,4 +703,6 @@ def run_plan(plan):
                 res.update(outcome='earlier_replaced', step=k, what=bad[0][0], detail=bad[0][1], after_fault=bool(exp))
                 break
         res['notes'] += ex.notes
+        res['inv_checked'] = getattr(ex, 'inv_checked', 0)
+        res['same_resolved'] = getattr(ex, 'same_resolved', 0)
     return res
